@@ -66,7 +66,7 @@ Proof. unfold in_range. rewrite app_length, Nat2Z.inj_add. lia. Qed.
 Lemma proof_checks_app headers newh raw h m : in_range headers h ->
   proof_checks dsha headers raw h m -> proof_checks dsha (headers ++ newh) raw h m.
 Proof.
-  intros Hr [brs [pos [br [A [B [C D]]]]]]. exists brs, pos, br. repeat split; try assumption.
+  intros Hr [brs [pos [br [A [B [C [D E]]]]]]]. exists brs, pos, br. repeat split; try assumption.
   rewrite app_nth1; [exact D|]. unfold in_range in Hr. lia.
 Qed.
 
